@@ -3,7 +3,7 @@
    region stack, index/slice/unwrap panics); layer A = the reference decoder on lists. *)
 From Coq Require Import NArith ZArith List.
 From Desert Require Import Outcome IO IOProofs Types Codec CodecB CodecWf TotalProofs SimProofs
-  MonoProofs PropLemmas.
+  MonoProofs PropLemmas TermProofs.
 Import ListNotations.
 Open Scope N_scope.
 
@@ -47,6 +47,48 @@ Theorem C05_fuel_monotone : forall f f' E t bs st r,
   (f <= f')%nat -> decodeB f E t bs st = r -> r <> Fuel -> decodeB f' E t bs st = r.
 Proof. exact decodeB_mono. Qed.
 
+(* TERMINATION. `Fuel` goes away: for every type and environment without sequences of zero-width
+   elements (TermProofs.nzw_ty / nzw_env: no Vec<()>, [PhantomData; N], HashSet<Box<()>> ...), a
+   fuel LINEAR in the number of unread bytes suffices (fuel_bound E t len =
+   tdepth t + (len + 1) * S (env_depth E)): the reference decoder answers every input, of any
+   length, after a number of nested calls and loop iterations bounded by the input length -
+   recursive declarations included, because every record, tuple, option, result, sequence and
+   enum reads at least one byte before it recurses, and chunk regions are no longer than what is
+   left.  With C05_fuel_monotone this is the answer at every larger fuel, and with C05_B_is_A it
+   is the answer of the cursor-level decoder. *)
+Theorem C05_terminates_prompt : forall E t bs st f,
+  wf_env E = true -> wf_ty E t = true -> nzw_env E = true -> nzw_ty t = true ->
+  (fuel_bound E t (length bs) <= f)%nat -> decodeA f E t bs st <> Fuel.
+Proof. exact decodeA_terminates_prompt_ge. Qed.
+
+(* every successful decode of a type that is not zero-width moves the cursor forward, and leaves
+   the enclosing regions alone: no loop can spin without consuming input *)
+Theorem C05_progress : forall f E t s v s',
+  wf_env E = true -> wf_ty E t = true -> zero_width t = false ->
+  dec a_ops f E t s = Ok (v, s') ->
+  (length (a_cur s') < length (a_cur s))%nat /\ a_stack s' = a_stack s.
+Proof. exact decA_consumes_one. Qed.
+
+(* without the restriction the decoder still terminates on every input, but the number of
+   iterations is then governed by the decoded count (up to 2^64 through `as usize` of a negative
+   count), not by the input length: this is the known finding F14, exhibited on the model by
+   C05_zero_width_spins (5 bytes of input, more than 1000 iterations) *)
+Theorem C05_terminates : forall E t bs st,
+  wf_env E = true -> wf_ty E t = true -> exists f, decodeA f E t bs st <> Fuel.
+Proof. exact decodeA_terminates. Qed.
+
+Example C05_zero_width_spins :
+  dec a_ops 1000 [] (TSeq KVec (TPrim PUnit)) (mkA [254; 255; 255; 255; 15] [] []) = Fuel.
+Proof. exact zero_width_needs_count_many_steps. Qed.
+
+(* non-vacuity of the prompt bound: a recursive declaration L { n: Option<Box<L>>, i: Vec<(u8,)> } *)
+Example C05_prompt_example :
+  let E := [mkD [76] (DRecord (mkR [mkField [110] (TOption (TWrap KBox (TNamed 0))) true None;
+                                    mkField [105] (TSeq KVec (TTuple [TPrim PU8])) false None] []))] in
+  wf_env E = true /\ nzw_env E = true /\ fuel_bound E (TNamed 0) 12 = 53%nat /\
+  is_ok (decodeA 53 E (TNamed 0) [0; 1; 0; 0; 2; 0; 7; 0; 9; 0; 0; 0] []) = true.
+Proof. vm_compute. repeat split. Qed.
+
 (* non-vacuity: hostile inputs of DESIGN section 2.3 on the model *)
 Example C05_example_hostile :
   (* String with length -1 *) is_err (decodeB 10 [] (TPrim PString) [1] []) = true /\
@@ -66,3 +108,6 @@ Print Assumptions C05_sources_slice.
 Print Assumptions C05_sources_owned.
 Print Assumptions C05_sources_context.
 Print Assumptions C05_fuel_monotone.
+Print Assumptions C05_terminates_prompt.
+Print Assumptions C05_progress.
+Print Assumptions C05_terminates.
